@@ -103,6 +103,10 @@ type c10x struct {
 	sa      *eng.Slicer
 	ord     map[string]int
 	callers map[*ssa.Function][]ssa.CallInstruction
+
+	tblDone bool
+	tblUses []c10TableUse
+	tblEsc  []eng.FlowUse
 }
 
 // nth numbers like constructs inside one function ("Manager.Get#2"): stable under edits
@@ -419,7 +423,7 @@ func c10(c *eng.Ctx) {
 	c.Rule("R1h", "hosts are normalised before lookup: every argument of Manager.Get outside pkg/clusters is a port-stripped host (HostWithoutPort, ExtraRequestInfo.Hostname, TLS ServerName, host part of SplitHostPort) or a cluster/server name; ExtraRequestInfo.Hostname is only ever HostWithoutPort(req.Host); HostWithoutPort returns the host part. A raw `req.Host` (\"api:6443\") would never match a table key", 11)
 	c.Rule("R2", "ownership guards in the controller: every Manager.Delete/DeleteWithStop executes only if a lookup of the same key succeeded and entry.Cluster == acting cluster; every Manager.AddWithKey executes only after a conflict check returned nil, the check tests every name of a list containing the inserted key against the owner of the inserted cluster, and its conflict edge always returns an error. Violations let create/update/delete of one cluster capture or remove a name of another", 6)
 	c.Rule("R2n", "owner comparisons compare lower-cased names: the acting-cluster operand of every owner test derives, on every static call path, from strings.ToLower, ClusterInfo.Cluster or LoadServerNames(); ClusterInfo.Cluster is only stored lower-cased and LoadServerNames returns only lower-cased names. Otherwise a cluster named `Prod` never owns its own entries: they are neither updated nor removed", 5)
-	c.Rule("R3", "single writer: the methods that mutate manager.clusters (Add/AddWithKey/Delete/DeleteWithStop/DeleteAll and their helpers) are called only from UpstreamClusterController methods and from the manager itself; request filters, the dispatcher and webhooks only read", 9)
+	c.Rule("R3", "single writer: the methods that mutate manager.clusters (Add/AddWithKey/Delete/DeleteWithStop/DeleteAll and their helpers) are called only from UpstreamClusterController methods and from the manager itself; request filters, the dispatcher and webhooks only read", 7) // 4 writers (or 3 + shared helper) + the controller's 3 call sites; forwarding calls inside the manager (Add → AddWithKey, Delete → doDelete) come and go with helper extraction
 	c.Rule("R4", "deleted names stop resolving: on the lister's NotFound edge the sync handler always reaches a cleanup that looks the cluster up under the lower-cased object name, iterates all of its LoadServerNames() without leaving the loop early and deletes each owned name; manager.Delete/DeleteWithStop remove the lower-cased key from the table on every path", 5)
 	c.Rule("R5", "TLS material of the same cluster: ClientCAs/Certificates copied into the per-handshake tls.Config are the fields of LoadTLSConfig() of the cluster returned by Manager.Get(SNI host); SNIVerifyOptions returns LoadVerifyOptions() of Get(HostWithoutPort(host)); both loaders read the receiver's own secure-serving config, which is only stored into the receiver's own slot", 8)
 
@@ -439,51 +443,183 @@ func c10(c *eng.Ctx) {
 var c10KeyedMapOps = map[string]bool{"Load": true, "Store": true, "LoadOrStore": true, "LoadAndDelete": true, "Delete": true, "Swap": true, "CompareAndSwap": true, "CompareAndDelete": true}
 var c10MutatingMapOps = map[string]bool{"Store": true, "LoadOrStore": true, "LoadAndDelete": true, "Delete": true, "Swap": true, "CompareAndSwap": true, "CompareAndDelete": true, "Clear": true}
 
-// c10TableOp returns the sync.Map method name when ci operates on the field manager.clusters.
-func c10TableOp(ci ssa.CallInstruction) string {
-	if eng.RecvTypeName(ci) != "sync.Map" {
-		return ""
+// c10TableUse is one operation on the name table manager.clusters. The table is identified by
+// where its address is formed (`&m.clusters`, an unexported field: only pkg/clusters can form
+// it); the operation may sit in that function or in any function the address is handed to
+// (a method turned into a function over the sync.Map, a closure turned into a function).
+type c10TableUse struct {
+	root  *ssa.Function         // the function that addressed the table
+	ins   ssa.Instruction       // the operating instruction
+	call  ssa.CallInstruction   // non-nil: a sync.Map method called on the table
+	op    string                // the sync.Map method; "=" whole-map overwrite; "copy" load; "?" anything else
+	sites []ssa.CallInstruction // the calls through which the address reached ins (outermost first)
+}
+
+func (u c10TableUse) mutates() bool { return u.op == "=" || u.op == "?" || c10MutatingMapOps[u.op] }
+
+// tableUses follows every `&manager.clusters` of pkg/clusters to its uses (eng.FlowDown).
+func (x *c10x) tableUses() ([]c10TableUse, []eng.FlowUse) {
+	if x.tblDone {
+		return x.tblUses, x.tblEsc
 	}
-	if r := eng.Receiver(ci); r == nil || !eng.FieldAddrOf(r, c10TManager, "clusters") {
-		return ""
+	x.tblDone = true
+	for _, fn := range x.c.W.FuncsOf(pkgClusters) {
+		eng.Instrs(fn, func(ins ssa.Instruction) {
+			fa, ok := ins.(*ssa.FieldAddr)
+			if !ok || !eng.FieldAddrOf(fa, c10TManager, "clusters") {
+				return
+			}
+			uses, esc := x.c.W.FlowDown(fa, eng.LiftDepth)
+			x.tblEsc = append(x.tblEsc, esc...)
+			for _, u := range uses {
+				t := c10TableUse{root: fn, ins: u.Ins, op: "?", sites: u.Sites}
+				switch n := u.Ins.(type) {
+				case ssa.CallInstruction:
+					if eng.RecvTypeName(n) == "sync.Map" && eng.Receiver(n) == u.V && eng.CalleeObj(n) != nil {
+						t.call, t.op = n, eng.CalleeObj(n).Name()
+					}
+				case *ssa.Store:
+					if n.Addr == u.V {
+						t.op = "="
+					}
+				case *ssa.UnOp:
+					if n.Op == token.MUL {
+						t.op = "copy"
+					}
+				}
+				x.tblUses = append(x.tblUses, t)
+			}
+		})
 	}
-	return eng.CalleeObj(ci).Name()
+	return x.tblUses, x.tblEsc
+}
+
+// entryContexts re-roots a table use whose root is itself a helper with a completely known set
+// of callers (a manager method turned into a function taking the *manager): one use per call
+// chain, rooted at the first function that is a manager method or whose callers are not all
+// known. Key normalisation is then decided from the method's own parameter down to the access.
+func (x *c10x) entryContexts(u c10TableUse, depth int) []c10TableUse {
+	top := eng.Outermost(u.root)
+	if depth <= 0 || top != u.root || c10RecvIs(top, c10TManager) {
+		return []c10TableUse{u}
+	}
+	sites := x.c.W.LiftSites(top)
+	if len(sites) == 0 {
+		return []c10TableUse{u}
+	}
+	var out []c10TableUse
+	for _, s := range sites {
+		v := u
+		v.root = s.Parent()
+		v.sites = append([]ssa.CallInstruction{s}, u.sites...)
+		out = append(out, x.entryContexts(v, depth-1)...)
+	}
+	return out
+}
+
+// keyFromRootParam: the key of a table access is computed from a string parameter of the
+// function that addressed the table — when the access sits in a helper, from the helper's
+// parameter that is bound, call by call up the chain, to something computed from it.
+func (x *c10x) keyFromRootParam(key ssa.Value, u c10TableUse) bool {
+	strParamOf := func(fn *ssa.Function, v ssa.Value) func(ssa.Value) bool {
+		top := eng.Outermost(fn)
+		return func(w ssa.Value) bool {
+			p, isP := w.(*ssa.Parameter)
+			return isP && p.Parent() == top && c10IsString(p.Type()) && (v == nil || v == w)
+		}
+	}
+	vals := []ssa.Value{key}
+	for k := len(u.sites) - 1; k >= 0; k-- {
+		site := u.sites[k]
+		callee := site.Common().StaticCallee()
+		if callee == nil {
+			return false
+		}
+		var next []ssa.Value
+		for i, p := range callee.Params {
+			if !c10IsString(p.Type()) || i >= len(site.Common().Args) {
+				continue
+			}
+			for _, v := range vals {
+				if x.sa.DerivesFrom(v, strParamOf(callee, p)) {
+					next = append(next, site.Common().Args[i])
+					break
+				}
+			}
+		}
+		if len(next) == 0 {
+			return false
+		}
+		vals = next
+	}
+	for _, v := range vals {
+		if x.sa.DerivesFrom(v, strParamOf(u.root, nil)) {
+			return true
+		}
+	}
+	return false
+}
+
+// keyLeaves returns the origins of the key of a table access (Slicer.Leaves); an origin that
+// is a parameter of a helper the table was handed to is replaced by the origins of the
+// argument bound to it at the call through which the table arrived.
+func (x *c10x) keyLeaves(key ssa.Value, u c10TableUse, stop func(ssa.Value) bool) []ssa.Value {
+	var out []ssa.Value
+	type at struct {
+		v     ssa.Value
+		level int
+	}
+	seen := map[at]bool{}
+	var rec func(v ssa.Value, level int)
+	rec = func(v ssa.Value, level int) {
+		if seen[at{v, level}] {
+			return
+		}
+		seen[at{v, level}] = true
+		for _, l := range x.sl.Leaves(v, stop) {
+			if p, ok := l.(*ssa.Parameter); ok && !stop(l) && level > 0 {
+				site := u.sites[level-1]
+				idx := c10ParamIndex(p)
+				if site.Common().StaticCallee() == p.Parent() && idx >= 0 && idx < len(site.Common().Args) {
+					rec(site.Common().Args[idx], level-1)
+					continue
+				}
+			}
+			out = append(out, l)
+		}
+	}
+	rec(key, len(u.sites))
+	return out
 }
 
 func c10R1(x *c10x) {
 	c := x.c
 	isLower := func(v ssa.Value) bool { return c10ClassOf(v) == "tolower" }
 	n := 0
-	for _, fn := range c.W.FuncsOf(pkgClusters) {
-		for _, ci := range eng.Calls(fn) {
-			op := c10TableOp(ci)
-			if !c10KeyedMapOps[op] {
-				continue
-			}
-			n++
-			key := eng.Args(ci)[0]
-			ok, detail := true, ""
-			leaves := x.sl.Leaves(key, isLower)
-			if len(leaves) == 0 {
-				ok, detail = false, "key of unknown origin"
-			}
-			for _, l := range leaves {
-				if !isLower(l) {
-					ok, detail = false, "the key may be "+c10Describe(l)+" without passing strings.ToLower: lookups/insertions/deletions disagree on the case of a name"
-				}
-			}
-			if ok {
-				top := eng.Outermost(fn)
-				fromParam := x.sa.DerivesFrom(key, func(v ssa.Value) bool {
-					p, isP := v.(*ssa.Parameter)
-					return isP && p.Parent() == top && c10IsString(p.Type())
-				})
-				if !fromParam {
-					ok, detail = false, "the lower-cased key is not computed from the method's own key parameter (entries end up under a key other than the one asked for)"
-				}
-			}
-			x.check("R1", fn, x.nth(fn, "clusters."+op+" key = ToLower(param)"), ci.Pos(), ok, detail)
+	uses, _ := x.tableUses()
+	var keyed []c10TableUse
+	for _, u := range uses {
+		if u.call != nil && c10KeyedMapOps[u.op] {
+			keyed = append(keyed, x.entryContexts(u, eng.LiftDepth)...)
 		}
+	}
+	for _, u := range keyed {
+		n++
+		key := eng.Args(u.call)[0]
+		ok, detail := true, ""
+		leaves := x.keyLeaves(key, u, isLower)
+		if len(leaves) == 0 {
+			ok, detail = false, "key of unknown origin"
+		}
+		for _, l := range leaves {
+			if !isLower(l) {
+				ok, detail = false, "the key may be "+c10Describe(l)+" without passing strings.ToLower: lookups/insertions/deletions disagree on the case of a name"
+			}
+		}
+		if ok && !x.keyFromRootParam(key, u) {
+			ok, detail = false, "the lower-cased key is not computed from the method's own key parameter (entries end up under a key other than the one asked for)"
+		}
+		x.check("R1", u.root, x.nth(u.root, "clusters."+u.op+" key = ToLower(param)"), u.call.Pos(), ok, detail)
 	}
 	if n == 0 {
 		c.Fail("R1", nil, "keyed access of manager.clusters", 0, "no Load/Store/LoadAndDelete on manager.clusters found: the name table anchor moved")
@@ -884,27 +1020,40 @@ func c10R2n(x *c10x, acting []c10Acting) {
 
 func c10R3(x *c10x) {
 	c := x.c
-	// mutators of the table: functions of pkg/clusters that write manager.clusters, closed
-	// under "a manager method that calls a mutator".
+	// writers of the table: the functions of pkg/clusters that address manager.clusters and
+	// mutate it — themselves or through a function they hand the address to (the helper can
+	// only write what it is given; the function that gives it the table is the writer).
+	uses, escapes := x.tableUses()
+	for _, e := range escapes {
+		c.Undecided("R3", e.Fn(), x.nth(e.Fn(), "address of manager.clusters stays within the manager"), e.Ins.Pos(), "the address of the name table is stored, returned or handed to a call that cannot be followed: its writers are not known")
+	}
+	writes := map[*ssa.Function]bool{}
+	var order []*ssa.Function
+	for _, u := range uses {
+		if u.mutates() && !writes[u.root] {
+			writes[u.root] = true
+			order = append(order, u.root)
+		}
+	}
+	// mut: top-level functions that write the table. A manager method is a writer the rest of
+	// the program reaches through the Manager interface; an unexported package-level function
+	// (a method turned into a function over the manager) is a writer only its own package can
+	// call — both are admitted, and so is everything else in the set once its callers are
+	// checked below. Anything else that writes the table is a second writer.
 	mut := map[*ssa.Function]bool{}
-	for _, fn := range c.W.FuncsOf(pkgClusters) {
-		writes := false
-		for _, ci := range eng.Calls(fn) {
-			if c10MutatingMapOps[c10TableOp(ci)] {
-				writes = true
-			}
+	internalHelper := func(top *ssa.Function) bool {
+		if top.Signature.Recv() != nil || top.Parent() != nil {
+			return false
 		}
-		if len(eng.StoresToField([]*ssa.Function{fn}, c10TManager, "clusters")) > 0 {
-			writes = true
-		}
-		if !writes {
-			continue
-		}
+		o, _ := top.Object().(*types.Func)
+		return o != nil && !o.Exported() && top.Name() != "init"
+	}
+	for _, fn := range order {
 		top := eng.Outermost(fn)
 		if top.Signature.Recv() == nil && c10ReturnsManager(top) {
 			continue // the constructor initialises an empty table
 		}
-		ok := c10RecvIs(fn, c10TManager)
+		ok := c10RecvIs(fn, c10TManager) || internalHelper(top)
 		x.check("R3", fn, "manager.clusters written only by manager methods", fn.Pos(), ok, "the name table is mutated outside the manager's methods")
 		if ok {
 			mut[top] = true
@@ -914,7 +1063,7 @@ func c10R3(x *c10x) {
 		changed = false
 		for _, fn := range c.W.FuncsOf(pkgClusters) {
 			top := eng.Outermost(fn)
-			if mut[top] || !c10RecvIs(fn, c10TManager) {
+			if mut[top] || !(c10RecvIs(fn, c10TManager) || internalHelper(top)) {
 				continue
 			}
 			for _, ci := range eng.Calls(fn) {
@@ -927,7 +1076,9 @@ func c10R3(x *c10x) {
 	}
 	names := map[string]bool{}
 	for fn := range mut {
-		names[fn.Name()] = true
+		if c10RecvIs(fn, c10TManager) {
+			names[fn.Name()] = true
+		}
 	}
 	for _, must := range []string{"AddWithKey", "Delete", "DeleteWithStop"} {
 		if !names[must] {
@@ -935,6 +1086,9 @@ func c10R3(x *c10x) {
 		}
 	}
 	isMutCall := func(ci ssa.CallInstruction) (string, bool) {
+		if callee := ci.Common().StaticCallee(); callee != nil && mut[callee] && !c10RecvIs(callee, c10TManager) {
+			return callee.Name(), true
+		}
 		o := eng.CalleeObj(ci)
 		if o == nil || !names[o.Name()] {
 			return "", false
@@ -945,6 +1099,11 @@ func c10R3(x *c10x) {
 		}
 		return "", false
 	}
+	// a call is allowed in the controller's and the manager's methods, and in a writer of the
+	// set (whose own callers are checked in turn)
+	allowedIn := func(fn *ssa.Function) bool {
+		return c10RecvIs(fn, c10TCtrl, c10TManager) || mut[eng.Outermost(fn)]
+	}
 	n := 0
 	for _, fn := range c.W.AllRepoFuncs() {
 		for _, ci := range eng.Calls(fn) {
@@ -953,12 +1112,21 @@ func c10R3(x *c10x) {
 				continue
 			}
 			n++
-			allowed := c10RecvIs(fn, c10TCtrl, c10TManager)
-			x.check("R3", fn, x.nth(fn, "call of table mutator "+name), ci.Pos(), allowed,
+			x.check("R3", fn, x.nth(fn, "call of table mutator "+name), ci.Pos(), allowedIn(fn),
 				"the name table is written from outside UpstreamClusterController/manager: a second writer bypasses the ownership and conflict checks (a request-path caller could bind any host to any cluster)")
 		}
-		// method values of mutators escaping as function values
+		// mutators escaping as function values
 		eng.Instrs(fn, func(ins ssa.Instruction) {
+			var calleeVal ssa.Value
+			if ci, isCall := ins.(ssa.CallInstruction); isCall {
+				calleeVal = ci.Common().Value
+			}
+			for _, op := range ins.Operands(nil) {
+				if f, isF := (*op).(*ssa.Function); isF && ssa.Value(f) != calleeVal && mut[f] && !c10RecvIs(f, c10TManager) {
+					n++
+					x.check("R3", fn, x.nth(fn, "function value of table mutator "+f.Name()), ins.Pos(), allowedIn(fn), "a mutator of the name table escapes as a function value outside the controller/manager")
+				}
+			}
 			mc, ok := ins.(*ssa.MakeClosure)
 			if !ok {
 				return
@@ -1195,44 +1363,78 @@ func c10R4(x *c10x) {
 		if m == nil {
 			continue
 		}
-		ok, why := x.removesKey(m, 2)
+		ok, why := x.removesKey(m, nil, nil, nil, eng.LiftDepth)
 		x.check("R4", m, "removes the key from manager.clusters on every path", m.Pos(), ok, why)
 	}
 }
 
-// removesKey: every path through fn passes a deleting access of manager.clusters keyed by
-// (the lower-casing of) fn's name parameter, directly or through a manager method for
-// which the same holds.
-func (x *c10x) removesKey(fn *ssa.Function, depth int) (bool, string) {
-	fromParam := func(v ssa.Value) bool {
-		return x.sa.DerivesFrom(v, func(u ssa.Value) bool {
-			p, ok := u.(*ssa.Parameter)
-			return ok && p.Parent() == fn && c10IsString(p.Type())
-		})
+// removesKey: every path through fn passes a deleting access of the table keyed by (the
+// lower-casing of) fn's name parameter, directly or through a function of the package for
+// which the same holds in the context of the call. The table is `&m.clusters` of the manager
+// fn works on (its receiver, or a parameter bound to it by the call) or a *sync.Map parameter
+// the call binds to that address; the key parameters of a callee are those bound to
+// something computed from the caller's key. With mgr, tbl and keys all nil fn is the entry:
+// a manager method, its receiver the manager, every string parameter a key.
+func (x *c10x) removesKey(fn *ssa.Function, mgr, tbl, keys map[*ssa.Parameter]bool, depth int) (bool, string) {
+	if mgr == nil && tbl == nil && keys == nil {
+		mgr, keys = map[*ssa.Parameter]bool{}, map[*ssa.Parameter]bool{}
+		if fn.Signature.Recv() != nil && len(fn.Params) > 0 {
+			mgr[fn.Params[0]] = true
+		}
+		for _, p := range fn.Params {
+			if c10IsString(p.Type()) {
+				keys[p] = true
+			}
+		}
+	}
+	isParamIn := func(v ssa.Value, set map[*ssa.Parameter]bool) bool {
+		p, ok := v.(*ssa.Parameter)
+		return ok && set[p]
+	}
+	isTable := func(v ssa.Value) bool {
+		if isParamIn(v, tbl) {
+			return true
+		}
+		fa, ok := v.(*ssa.FieldAddr)
+		return ok && eng.FieldAddrOf(fa, c10TManager, "clusters") && isParamIn(fa.X, mgr)
+	}
+	fromKey := func(v ssa.Value) bool {
+		return x.sa.DerivesFrom(v, func(u ssa.Value) bool { return isParamIn(u, keys) })
 	}
 	removes := func(i ssa.Instruction) bool {
 		ci, ok := i.(*ssa.Call)
 		if !ok {
 			return false
 		}
-		switch c10TableOp(ci) {
-		case "LoadAndDelete", "Delete":
-			return fromParam(eng.Args(ci)[0])
+		if eng.RecvTypeName(ci) == "sync.Map" && eng.CalleeObj(ci) != nil {
+			switch eng.CalleeObj(ci).Name() {
+			case "LoadAndDelete", "Delete":
+				return isTable(eng.Receiver(ci)) && fromKey(eng.Args(ci)[0])
+			}
+			return false
 		}
 		callee := ci.Call.StaticCallee()
-		if callee == nil || depth <= 0 || callee.Blocks == nil || !c10RecvIs(callee, c10TManager) || callee == fn {
+		if callee == nil || depth <= 0 || callee.Blocks == nil || callee == fn || callee.Pkg == nil || callee.Pkg.Pkg.Path() != pkgClusters {
 			return false
 		}
-		passes := false
-		for _, a := range eng.Args(ci) {
-			if c10IsString(a.Type()) && fromParam(a) {
-				passes = true
+		m2, t2, k2 := map[*ssa.Parameter]bool{}, map[*ssa.Parameter]bool{}, map[*ssa.Parameter]bool{}
+		for j, a := range ci.Call.Args {
+			if j >= len(callee.Params) {
+				break
+			}
+			switch {
+			case isParamIn(a, mgr):
+				m2[callee.Params[j]] = true
+			case isTable(a):
+				t2[callee.Params[j]] = true
+			case c10IsString(a.Type()) && fromKey(a):
+				k2[callee.Params[j]] = true
 			}
 		}
-		if !passes {
+		if len(k2) == 0 || len(m2)+len(t2) == 0 {
 			return false
 		}
-		ok2, _ := x.removesKey(callee, depth-1)
+		ok2, _ := x.removesKey(callee, m2, t2, k2, depth-1)
 		return ok2
 	}
 	if esc := eng.ReachFromEntry(fn, eng.PathQuery{Target: eng.IsExit, Avoid: removes}); esc != nil {
